@@ -123,8 +123,14 @@ fn apply_stall_gate(conns: &mut [SrtlaConnection], current_time_ms: u64, config:
         c.update_stall_latch(current_time_ms, min_in_flight, stale_ceiling_ms);
     }
 
+    // "Healthy" means it can actually take the traffic: a link whose
+    // `connected` flag was cleared (REG_ERR) but which has since heard an
+    // inbound byte is neither timed out nor unschedulable, yet the mode
+    // selectors will not pick it. Counting it here would gate the last link
+    // that can carry the stream.
     let any_healthy = conns.iter().any(|c| {
-        !c.is_timed_out(current_time_ms)
+        c.connected
+            && !c.is_timed_out(current_time_ms)
             && c.is_schedulable()
             && !c.stall_latched()
             && !c.silence_pulled
